@@ -71,7 +71,9 @@ Patterns == << <<<<97>>, <<98>>>>,                                 \* a/b/a/b...
                <<<<97>>, <<>>, <<98, 58, 99>>>>,                   \* a//b:c/...
                <<Big, <<233>>, DOTDOT, Big>> >>
 PatternPath(k, n) == [i \in 1..n |-> Patterns[k][((i - 1) % Len(Patterns[k])) + 1]]
-LongSegLists == {PatternPath(k, n) : k \in 1..Len(Patterns), n \in {16, 17, 18, 33, 40}}
+LongSegLists == {PatternPath(k, n) : k \in 1..(Len(Patterns) - 1), n \in {16, 17, 18, 33}}
+                \* > 512 bytes of normalized segments (ten 60-byte ones); ~30 s of TLC time: thorough tier only
+                \cup (IF MaxSegs >= 6 THEN {PatternPath(Len(Patterns), 20)} ELSE {})
 
 Init == abs \in BOOLEAN /\ segs = <<>> /\ done = TRUE /\ PrintT(ToJson(Case(Join(abs, <<>>))))
 \* two steps, so that the long paths are spread over TLC's workers (the successors of one
